@@ -5,7 +5,7 @@
 # (b) by execution: TLC-generated command lines (Walk.tla) are answered by the real bash on the script of G and on the
 #     script of G with every `||` replaced by `|`; LevelsCheck.tla validates same status, reply(G) subset of reply(G|),
 #     and non-emptiness.
-import json, random, time
+import json, random, re, time
 import core, corpus, gen, bashflow, bashdrv
 from gen import L, R, C
 
@@ -144,7 +144,11 @@ def run(tier):
         r = byid[d["id"]]
         qa, qe, eus = rawq[d["id"]][0][d["qi"] - 1], rawq[d["id"]][1][d["qi"] - 1], rawq[d["id"]][2]
         for f in sorted(d["failed"]):
-            v.mismatch({"check": "execution", "kind": f, "automaton_overlaps": sorted(overlaps.get(d["id"], []))},
+            ov = sorted(overlaps.get(d["id"], []))
+            esig = {"check": "execution", "kind": f, "automaton_overlaps": ov, "no_overlap": not ov}
+            for o in ov:        # one flag per kind of overlap the automaton has: a recorded finding names the kind, not the whole list
+                esig["has_" + re.sub(r"[^a-z]+", "_", o)] = True
+            v.mismatch(esig,
                        "%s | line: cmd %s %s^ -> rc %d %s; with `|` for `||` (%s): rc %d %s" % (
                            r["usage"].strip().replace("\n", " "), " ".join(qa["words"]), qa["prefix"], qa["rc"], qa["reply"], eus.strip().replace("\n", " "), qe["rc"], qe["reply"]),
                        {"usage": r["usage"], "erased": eus, "words": qa["words"], "prefix": qa["prefix"], "with_levels": {"rc": qa["rc"], "reply": qa["reply"]},
